@@ -122,6 +122,8 @@ pub enum Pat {
     Ellipsis(Option<Name>),
     /// `{x, y as z}`; key, optional rebind
     Map(Vec<(MK, Option<Name>, Option<Hint>)>),
+    /// a map pattern with a hint for the whole value: `{x, y}: Foo`
+    TypedMap(Box<Pat>, Hint),
 }
 
 #[derive(Clone, Debug, PartialEq)]
@@ -775,6 +777,7 @@ impl Renderer {
                 with_hint(t, h)
             }
             Pat::Ellipsis(n) => format!("{}...", n.as_deref().unwrap_or("")),
+            Pat::TypedMap(inner, h) => format!("{}: {}", self.pat(inner, level, in_match), hint_text(h)),
             Pat::Map(entries) => {
                 let inner: Vec<String> = entries
                     .iter()
